@@ -166,6 +166,14 @@ def batch(prop, tier, sd):
                     p['requires'] = list(p['requires'])
                     p['requires'].insert(rng.randint(0, len(p['requires'])), 'ctx')
             out.append(d)
+    if prop in ('C06', 'C07', 'C08'):
+        # providers with an interface binding: often Async INSIDE the Bind (kessoku.Bind[I](kessoku.Async(kessoku.Provide(f)))) and fallible
+        for d_ in out:
+            for p_ in d_['providers']:
+                if p_['kind'] == 'fn' and any(len(g_) > 1 for g_ in p_['provides']) and rng.random() < 0.6:
+                    p_['wrap'] = 'bind-async'
+                    p_['async'] = True
+                    p_['fallible'] = rng.random() < 0.7
     out = [d for d in out if ds.accepts(d)]
     if prop in ('C06', 'C07', 'C08'):
         # a third of ALL fault-mode packages declare `ctx` at package level (the injector's parameter is then ctx0)
